@@ -57,6 +57,7 @@ func (c *ViewCommand) Execute() error {
 
 func (c *ViewCommand) execute(tow io.Writer) (err error) {
 	now := whispertool.TimestampFromStdTime(time.Now())
+	now = verifNow(now)
 	var until whispertool.Timestamp
 	if c.Until == 0 {
 		until = now
